@@ -605,19 +605,67 @@ do_ws(char **tok)
 	raw_write_cut(fd, d + pre, len - pre, cuts + k0, nc - k0);
 	shutdown(fd, SHUT_WR);
 
-	nng_mtx_lock(c->mtx);
-	nng_time dl = nng_clock() + 5000;
-	while (!c->done) {
-		if (nng_cv_until(c->cv, dl) != 0) break;
+	// Collect what nng emits until it is finished with this stream: its
+	// receive failed, or it sent a close frame (always its last frame), or the
+	// connection ended, or nothing has happened for a while (a receive posted
+	// after the connection was closed by the peer never completes).
+	size_t   ntx = 0, parsed = 0;
+	int      saw_close = 0, eof = 0, done = 0, err = 0, lastrec = -1;
+	nng_time start = nng_clock(), lastact = start, donetime = 0;
+	for (;;) {
+		struct pollfd pfd = { .fd = fd, .events = POLLIN };
+		int           pr  = eof ? (usleep(2000), 0) : poll(&pfd, 1, 2);
+		nng_time      now = nng_clock();
+		if (pr > 0) {
+			ssize_t r = recv(fd, txb + ntx, sizeof(txb) - ntx, 0);
+			if (r <= 0) {
+				eof = 1;
+			} else {
+				ntx += (size_t) r;
+				lastact = now;
+			}
+		}
+		// walk over the complete frames received so far
+		while (ntx - parsed >= 2) {
+			size_t l7 = txb[parsed + 1] & 0x7f, h = 2 + ((txb[parsed + 1] & 0x80) ? 4 : 0), len = l7;
+			if (l7 == 126) {
+				if (ntx - parsed < 4) break;
+				len = ((size_t) txb[parsed + 2] << 8) | txb[parsed + 3];
+				h += 2;
+			} else if (l7 == 127) {
+				if (ntx - parsed < 10) break;
+				len = 0;
+				for (int k = 0; k < 8; k++) len = (len << 8) | txb[parsed + 2 + k];
+				h += 8;
+			}
+			if (len > sizeof(txb) || ntx - parsed < h + len) break;
+			if ((txb[parsed] & 0x0f) == 8) saw_close = 1;
+			parsed += h + len;
+		}
+		nng_mtx_lock(c->mtx);
+		done = c->done;
+		err  = c->err;
+		if (c->nrec != lastrec) {
+			lastrec = c->nrec;
+			lastact = now;
+		}
+		nng_mtx_unlock(c->mtx);
+		if (done && donetime == 0) donetime = now;
+		if (saw_close || (eof && done)) break;
+		if (done && now - donetime > 40) break;   // failed without a close frame (read error)
+		if (now - lastact > 300) break;           // quiet
+		if (now - start > 5000) break;
 	}
-	int done = c->done, err = c->err;
-	nng_mtx_unlock(c->mtx);
 	nng_stream_close(s);
 	nng_aio_stop(c->raio);
 	nng_stream_free(s);
-	size_t ntx = raw_read_eof(fd, txb, 0, sizeof(txb));
 	close(fd);
 	ws_teardown();
+	nng_mtx_lock(c->mtx);
+	done = c->done;
+	err  = c->err;
+	nng_mtx_unlock(c->mtx);
+	(void) err;
 
 	if (c->msgmode) {
 		for (int i = 0; i < c->nrec; i++) {
@@ -636,7 +684,7 @@ do_ws(char **tok)
 		printf("\n");
 	}
 	print_tx(txb, ntx);
-	printf("end err=%d\n", done ? err : -2);
+	printf("end done=%d\n", done);
 	for (int i = 0; i < c->nrec; i++) free(c->rec[i]);
 	free(c->rec);
 	free(c->reclen);
